@@ -1,17 +1,17 @@
-(* C08 oracle and non-triviality on wiring cases. Correspondence: Corr/Wiring.v [wcheck];
+(* C08 oracle and non-triviality on wiring cases. Correspondence: Corr/Wiring.v [wcheck_obs];
    oracles: Corr/WiringOracles.v (static scenario data + the implementation's observation only). *)
 From Coq Require Import List Arith Bool.
 From IocVerif Require Import Model.App Corr.Wiring Corr.WiringOracles.
 Import ListNotations.
 
-Definition check_case : wcase -> bool := wcheck.
+Definition check_case : wcase -> bool := wcheck_obs.
 
 (* qualifier admits only declared members of the set; unique Primary, else unique unnamed, wins; per field *)
 Definition oracle_case (c : wcase) : bool := oracle_points c && oracle_points_sound c && oracle_rank c.
 
 Definition nontrivial (c : wcase) : bool := ok_start c && (1 <=? count_points c (fun h kp => match pt_quals (snd kp) with Some _ => true | None => negb (pt_slice (snd kp)) && (2 <=? length (providers c h (snd kp))) end)).
 
-Definition mismatches (cs : list wcase) : list nat := wmismatches cs.
+Definition mismatches (cs : list wcase) : list nat := wmismatches_obs cs.
 Definition violations (cs : list wcase) : list nat :=
   map w_id (filter (fun c => negb (oracle_case c)) cs).
 Definition count_nontrivial (cs : list wcase) : list nat := [length (filter nontrivial cs)].
